@@ -140,7 +140,8 @@ struct Twin {
     // entries currently stored (diagnostics / vacuity gate only)
     std::pair<int, int> cache_fill()
     {
-        auto cnt = [](auto& c) { int k = 0; for (auto& e : c.table) k += !e.IsNull(); return k; };
+        // live entries = slots whose "collectable" flag is clear (scanning the 32 MiB tables themselves on every event is too slow)
+        auto cnt = [](auto& c) { int k = 0; for (uint32_t i = 0; i < c.size; i++) k += !c.collection_flags.bit_is_set(i); return k; };
         ValidationCache& vc = n.chainman().m_validation_cache;
         return {cnt(vc.m_script_execution_cache), cnt(vc.m_signature_cache.setValid)};
     }
@@ -415,7 +416,7 @@ int main(int argc, char** argv)
     cuckoo_part(big, cstates, ctrans, cevict, cerased);
     // vacuity gates
     auto need = [&](const std::string& k) { if (!verdicts.count(k) && vx::rep().violations == 0) { printf("HARNESS-ERROR outcome class never occurred: %s\n", k.c_str()); exit(2); } };
-    for (const char* k : {"V:NS:valid", "P:NS:rejected", "A:NS:rejected", "B:NS:connected", "V:NSx:invalid", "B:NSx:notconnected", "P:SG:accepted", "A:SG:accepted", "P:SG:already", "V:SG:valid", "B:SG:connected",
+    for (const char* k : {"V:NS:valid", "P:NS:rejected", "A:NS:rejected", "B:NS:connected", "V:NSx:invalid", "B:NSx:notconnected", "P:SG:accepted", "A:SG:accepted", "P:SG:rejected", "V:SG:valid", "B:SG:connected",
                           "P:SGh:rejected", "V:SGh:valid", "B:SGh:connected", "P:SGx:rejected", "V:SGx:invalid", "B:SGx:notconnected", "I::invalidated", "R::reconsidered"}) need(k);
     if (vx::rep().violations == 0 && (max_script < 1 || max_sig < 1 || cevict < 1 || cerased < 1)) { printf("HARNESS-ERROR caches never populated in twin A (script %lu, sig %lu) or cuckoo evictions never happened\n", (unsigned long)max_script, (unsigned long)max_sig); return 2; }
     E.states = states.size() + cstates;
